@@ -79,4 +79,15 @@ VerbatimLaw(v, sp) ==
     (~sp.on \/ ~sp.bang \/ Len(v) <= sp.width) =>
         /\ IsSub(v, f)
         /\ Len(f) - Len(v) = Len(SelectSeq(f, LAMBDA c : c = sp.fill)) - Len(SelectSeq(v, LAMBDA c : c = sp.fill))
+
+\* %{func}: the cleaned function name.  docs/api/formatters.md gives the example "void MyClass::myMethod(int,
+\* QString)" -> "MyClass::myMethod"; for signatures of that plain kind - [qualifiers] type name(args) [const], no
+\* templates, operators or function pointers - it is the text between the last blank before the first "(" and
+\* that "(" (the whole text after the last blank when there is no parenthesis).
+CleanFunc(sig) ==
+    LET ps == {i \in 1..Len(sig) : sig[i] = 40}
+        p  == IF ps = {} THEN Len(sig) + 1 ELSE CHOOSE i \in ps : \A j \in ps : i <= j
+        bs == {i \in 1..(p - 1) : sig[i] = 32}
+        b  == IF bs = {} THEN 0 ELSE CHOOSE i \in bs : \A j \in bs : j <= i
+    IN  SubSeq(sig, b + 1, p - 1)
 =============================================================================
